@@ -201,9 +201,30 @@ def _p_op(o):
     return f.src
 
 
+_RECONCILE_BANNED = ('raw', 'trivia', 'coerce', 'docstr', 'pars', 'pars_walrus', 'pars_arglike', 'norm', 'norm_self', 'norm_get')
+
+
+def _p_reconcile(o):
+    """reconcile() sets ten options for its own duration (documented: they may not be passed); one run succeeds, one
+    fails half-way - either way the caller's defaults must be what they were."""
+    o = {k: v for k, v in o.items() if k not in _RECONCILE_BANNED}
+    f = FST('i = 1\nj = 2', 'exec').mark()
+    f.a.body[0].value = ast.Name(id='t')
+    g = f.reconcile(**o)
+    h = FST('k = 1', 'exec').mark()
+    h.a.body[0].value = ast.Name(id='not a name')
+    try:
+        h.reconcile(**o)
+        r = 'ok'
+    except Exception as e:  # noqa: BLE001
+        r = '!' + type(e).__name__
+    return g.src + '|' + r
+
+
 PROBES = [('pars', _p_pars), ('trivia', _p_trivia), ('norm', _p_norm), ('pep8space', _p_pep8), ('elif_', _p_elif),
           ('pars_walrus', _p_walrus), ('pars_arglike', _p_arglike), ('docstr', _p_docstr), ('op_side', _p_opside),
-          ('promote', _p_promote), ('coerce', _p_coerce), ('raw', _p_raw), ('args_as', _p_args_as), ('op', _p_op)]
+          ('promote', _p_promote), ('coerce', _p_coerce), ('raw', _p_raw), ('args_as', _p_args_as), ('op', _p_op),
+          ('reconcile', _p_reconcile)]
 PROBE_FOR = {'pars': [0, 5, 6], 'trivia': [1], 'norm': [2], 'norm_self': [2], 'norm_get': [2], 'set_norm': [2],
              'pep8space': [3], 'elif_': [4], 'pars_walrus': [5], 'pars_arglike': [6], 'docstr': [7], 'op_side': [8],
              'promote': [9], 'coerce': [10], 'raw': [11], 'args_as': [12], 'op': [13]}
